@@ -87,6 +87,13 @@ func ruleRecordLayouts(c *Ctx, r *Report) {
 			"0xff 0xff 0xff 0xff 0xff 0xff 0xff 0xff 0x19 builtin:len(cid)[0] 0x19 protocolVersion.Major[0] protocolVersion.Minor[0] epoch[1..0] sequenceNumber[5..0] cid[*] builtin:len(payload)[1..0] complit.Content[*] complit.RealType[0] make([]byte,complit.Zeros)[*]",
 			"RFC 9146 5.1 MAC(seq_num_placeholder + tls12_cid + cid_length + tls12_cid + version + epoch + sequence_number + cid + length + content + real_type + zeros)")
 	}
+	ruleExplicitNonce12(c, r)
+}
+
+// ruleExplicitNonce12: explicit nonce of DTLS 1.2 GCM/CCM records (also a C09 obligation: the nonce
+// is a function of the allocated record number for every header layout).
+func ruleExplicitNonce12(c *Ctx, r *Report) {
+	const rule = "layout"
 	// 5. explicit nonce of GCM/CCM records: epoch(2)||sequence(6) written after the 4-byte salt
 	if fn := c.need(r, rule, "(*"+pkgCS+".aead).encrypt"); fn != nil {
 		r.Sites += len(fn.Blocks)
